@@ -546,6 +546,16 @@ class Spec:
                 if not isinstance(s2, SU().IndexedSet):
                     bad('result-object', 'an IndexedSet', type(s2).__name__)
                     return V, None, label
+                if s2 is not s:
+                    # `s op= x` may hand back another object, but it is an *in-place* operation: the object it was
+                    # applied to (still reachable under any other name) holds the result as well, as with a set
+                    try:
+                        got = list(s)
+                    except Exception as e:
+                        got = 'raised ' + type(e).__name__
+                    if got != L2:
+                        bad('object-applied-to-not-updated', L2, got)
+                        return V, None, label
                 probs = check_internals(s2, L2)
                 if internals(s2) is None:
                     try:
@@ -642,20 +652,42 @@ class Spec:
                 read('symmetric_difference', shape, lambda: list(s.symmetric_difference(*objs)),
                      first_appearance(set(L).symmetric_difference(*items), L, *items),
                      ['symmetric_difference'] + specs, tags)
-        # operators: forward with set-like operands (built-in sets refuse other operand types), reflected with the
-        # built-in sets (result compared as a set: "self" is then the right-hand operand, order is not fixed)
+        # operators: with set-like operands (built-in sets refuse other operand types) the result is demanded, forward
+        # and reflected (`other | s` with a built-in set on the left is handed to the IndexedSet: it is "self", so the
+        # order is first appearance in it and then in the other operand; `other - s` holds items of the other operand
+        # only and is compared as a set).  With a list / tuple Python sets raise TypeError: a TypeError is accepted,
+        # a result must be the right one.
+        def ops_read(what, fn, want, descr, tags, lenient):
+            if lenient:
+                def fn2(fn=fn, want=want):
+                    try:
+                        return fn()
+                    except TypeError:
+                        return want
+                read('operator', what, fn2, want, descr, tags)
+            else:
+                read('operator', what, fn, want, descr, tags)
+
         for sp, o, it in made:
-            if sp[0] not in ('set', 'frozenset', 'iset', 'isetd', 'self'):
-                continue
-            read('operator', '|', lambda: list(s | o), first_appearance(Lset | set(it), L, it), ['|', list(sp)])
-            read('operator', '&', lambda: list(s & o), first_appearance(Lset & set(it), L), ['&', list(sp)])
-            read('operator', '-', lambda: list(s - o), first_appearance(Lset - set(it), L), ['-', list(sp)])
-            read('operator', '^', lambda: list(s ^ o), first_appearance(Lset ^ set(it), L, it), ['^', list(sp)])
-            if sp[0] in ('set', 'frozenset'):
-                read('operator', 'reflected|', lambda: set(o | s), set(it) | Lset, ['r|', list(sp)])
-                read('operator', 'reflected&', lambda: set(o & s), set(it) & Lset, ['r&', list(sp)])
-                read('operator', 'reflected-', lambda: set(o - s), set(it) - Lset, ['r-', list(sp)])
-                read('operator', 'reflected^', lambda: set(o ^ s), set(it) ^ Lset, ['r^', list(sp)])
+            lenient = sp[0] in ('list', 'tuple')
+            tags = ('operand_has_duplicates',) if has_dups([sp]) else ()
+            sfx = '' if not lenient else ':sequence-operand'
+            sit = set(it)
+            ops_read('|' + sfx, lambda: list(s | o), first_appearance(Lset | sit, L, it), ['|', list(sp)], tags, lenient)
+            ops_read('&' + sfx, lambda: list(s & o), first_appearance(Lset & sit, L), ['&', list(sp)], tags, lenient)
+            ops_read('-' + sfx, lambda: list(s - o), first_appearance(Lset - sit, L), ['-', list(sp)], tags, lenient)
+            ops_read('^' + sfx, lambda: list(s ^ o), first_appearance(Lset ^ sit, L, it), ['^', list(sp)], tags, lenient)
+            if sp[0] in ('set', 'frozenset', 'list', 'tuple'):
+                ops_read('reflected|' + sfx, lambda: set(o | s), sit | Lset, ['r|', list(sp)], tags, lenient)
+                ops_read('reflected&' + sfx, lambda: set(o & s), sit & Lset, ['r&', list(sp)], tags, lenient)
+                ops_read('reflected-' + sfx, lambda: set(o - s), sit - Lset, ['r-', list(sp)], tags, lenient)
+                ops_read('reflected^' + sfx, lambda: set(o ^ s), sit ^ Lset, ['r^', list(sp)], tags, lenient)
+                ops_read('reflected|:order' + sfx, lambda: list(o | s), first_appearance(Lset | sit, L, it),
+                         ['r|', list(sp)], tags, lenient)
+                ops_read('reflected&:order' + sfx, lambda: list(o & s), first_appearance(Lset & sit, L),
+                         ['r&', list(sp)], tags, lenient)
+                ops_read('reflected^:order' + sfx, lambda: list(o ^ s), first_appearance(Lset ^ sit, L, it),
+                         ['r^', list(sp)], tags, lenient)
         # predicates: the pool plus operands defined relative to the current contents
         rel = []
         missing = [x for x in D if x not in Lset]
@@ -997,6 +1029,264 @@ def directed(ctx):
     return total
 
 
+# ----------------------------------------------------------------------------------------------------
+# directed supplement 2 (NOT exhaustive): bulk set operations at native scale
+
+BULK_INPLACE = ('update', 'intersection_update', 'difference_update', 'symmetric_difference_update',
+                'ior', 'iand', 'isub', 'ixor')
+BULK_INPLACE2 = ('update', 'intersection_update', 'difference_update')          # also with a second operand
+BULK_PURE = ('union', 'intersection', 'difference', 'symmetric_difference')
+BULK_KEEPS = ('none', 'few', 'under-half', 'half', 'most', 'all')
+BULK_GEOMETRIES = ('prefix', 'suffix', 'scattered')
+BULK_FOREIGN = 5            # items of the operand that self does not hold
+
+
+def bulk_sizes(tier):
+    """Set sizes: powers of two and 3 * powers of two, +-1 (typical thresholds of "large set" fast paths), every int
+    constant of the module under test in that range +-1, and two round numbers."""
+    top = 512 if tier == 'quick' else 2048
+    out = {100, 1000}
+    for base in (1, 3):
+        t = base
+        while t <= top:
+            if t >= 24:
+                out.update((t - 1, t, t + 1))
+            t *= 2
+    for v in list(vars(SU()).values()):
+        if type(v) is int and 24 <= v <= top:
+            out.update((v - 1, v, v + 1))
+    return sorted(out)
+
+
+def bulk_self_items(n):
+    """0..n-1 in an order that is neither sorted nor the iteration order of a built-in set of small ints"""
+    k = next(k for k in (37, 41, 43, 47, 53) if n % k and all(n % f or k % f for f in range(2, 54)))
+    return [(i * k + 11) % n for i in range(n)]
+
+
+def bulk_positions(n, keep, geom):
+    """Positions (in self's list) of the items the operand shares with self"""
+    if keep == 'none':
+        return []
+    if keep == 'all':
+        return list(range(n))
+    few = sorted({1, n // 2, n - 2})
+    if keep == 'few':
+        return few
+    if keep == 'most':
+        return [i for i in range(n) if i not in few]
+    m = (n - 1) // 2 if keep == 'under-half' else (n + 1) // 2        # 2 * m < n  resp.  2 * m >= n
+    if geom == 'prefix':
+        return list(range(m))
+    if geom == 'suffix':
+        return list(range(n - m, n))
+    return (list(range(0, n, 2)) + list(range(1, n, 2)))[:m]
+
+
+def bulk_operand_values(L, positions, n):
+    """Shared items in the reverse of self's order, items self does not hold at the front, in the middle, at the end"""
+    shared = [L[i] for i in positions][::-1]
+    f = [n + j for j in range(BULK_FOREIGN)]
+    h = len(shared) // 2
+    return f[:2] + shared[:h] + f[2:3] + shared[h:] + f[3:]
+
+
+def bulk_variants(n):
+    """(keep, geometry) pairs"""
+    out = []
+    for keep in BULK_KEEPS:
+        for g in (BULK_GEOMETRIES if keep in ('under-half', 'half') else ('-',)):
+            out.append((keep, g))
+    return out
+
+
+def bulk_case(case, report):
+    """One bulk operation on a fresh native-scale set.  report(sig, case, expected, observed).  -> evaluations"""
+    su = SU()
+    su._COMPACTION_FACTOR = native_factor()
+    IS = su.IndexedSet
+    n, holes, keep, geom, otype, form = (case[k] for k in ('n', 'holes', 'keep', 'geometry', 'type', 'form'))
+    kind, name = form[0], form[1]
+    sig = 'C11|directed:bulk:%s%s|' % (name, '(2ops)' if len(form) > 2 else '')
+    L = bulk_self_items(n)
+    s = IS(L)
+    if holes:
+        for i in sorted({n // 4, n // 2, n // 2 + 2}, reverse=True):
+            s.remove(L[i])
+            del L[i]
+    vals = bulk_operand_values(L, bulk_positions(len(L), keep, geom), n)
+    if otype == 'list' and vals:
+        vals = vals + [vals[0], vals[-1]]
+    specs = [(otype, tuple(vals))]
+    if len(form) > 2:
+        specs.append(('tuple', tuple(L[::2][::-1]) + (n + 1, n + BULK_FOREIGN)))
+    made = [make_operand(sp, s, L) for sp in specs]
+    objs, items = [o for o, _ in made], [it for _, it in made]
+    Lset = set(L)
+
+    def seen(x):
+        try:
+            return list(x)
+        except Exception as e:
+            return 'raised ' + type(e).__name__
+
+    def short(x):
+        return x if not isinstance(x, list) or len(x) <= 12 else {'len': len(x), 'first': x[:6], 'last': x[-6:]}
+
+    try:
+        with cpu_budget(CPU_BUDGET):
+            if kind == 'inplace':
+                alias = s
+                s2, r = impl_apply(s, (name,), objs)
+                L2, _ = model_apply(L, (name,), items)
+                if r[0] != 'ok':
+                    report(sig + 'raised', case, 'no exception', 'raised ' + r[1])
+                    return 1
+                if not isinstance(s2, IS):
+                    report(sig + 'result-object', case, 'an IndexedSet', type(s2).__name__)
+                    return 1
+                if seen(s2) != L2:
+                    report(sig + 'state:items', case, short(L2), short(seen(s2)))
+                    return 1
+                if s2 is not alias and seen(alias) != L2:
+                    report(sig + 'object-applied-to-not-updated', case, short(L2), short(seen(alias)))
+                    return 1
+                for what, exp, obs in check_internals(s2, L2):
+                    report('C11|directed:bulk|%s|after-%s' % (what, op_family(name)), case, short(exp), short(obs))
+                    return 1
+                # reads, then the object goes on living
+                for stage in ('reads', 'reads-after-add-and-remove'):
+                    m = len(L2)
+                    if len(s2) != m:
+                        report(sig + 'len', dict(case, stage=stage), m, len(s2))
+                        return 1
+                    idx = sorted({i for i in (0, 1, 2, m // 4, m // 2 - 1, m // 2, m - 3, m - 2, m - 1) if 0 <= i < m})
+                    idx += [i - m for i in idx]
+                    got = [s2[i] for i in idx]
+                    if got != [L2[i] for i in idx]:
+                        report(sig + 'getitem', dict(case, stage=stage, indexes=idx), [L2[i] for i in idx], got)
+                        return 1
+                    got = [s2.index(L2[i]) for i in idx]
+                    if got != [i % m for i in idx]:
+                        report(sig + 'index', dict(case, stage=stage, indexes=idx), [i % m for i in idx], got)
+                        return 1
+                    sl = slice(m // 3, m // 3 + 40, 3)
+                    if list(s2[sl]) != L2[sl] or list(reversed(s2)) != L2[::-1]:
+                        report(sig + 'slice-or-reversed', dict(case, stage=stage), 'same as the list', 'differs')
+                        return 1
+                    if stage == 'reads':
+                        s2.add(-1)
+                        L2 = L2 + [-1]
+                        if len(L2) > 3:
+                            s2.remove(L2[len(L2) // 2])
+                            del L2[len(L2) // 2]
+                        if seen(s2) != L2 or check_internals(s2, L2):
+                            report(sig + 'state-after-add-and-remove', case, short(L2), short(seen(s2)))
+                            return 1
+                return 1
+            # pure forms: named method, operator (forward / reflected), predicates; self must not change
+            lenient = otype in ('list', 'tuple')
+            o, it = objs[0], items[0]
+            sit = set(it)
+            want_c = {'union': Lset | sit, 'intersection': Lset & sit, 'difference': Lset - sit,
+                      'symmetric_difference': Lset ^ sit}[name]
+            want = first_appearance(want_c, L, it)
+            sym = {'union': '|', 'intersection': '&', 'difference': '-', 'symmetric_difference': '^'}[name]
+            import operator as _op
+            fn = {'|': _op.or_, '&': _op.and_, '-': _op.sub, '^': _op.xor}[sym]
+            calls = [('method', lambda: getattr(s, name)(o), False, True)]
+            calls.append(('operator', lambda: fn(s, o), lenient, True))
+            if otype != 'iset':
+                calls.append(('reflected-operator', lambda: fn(o, s), lenient, sym != '-'))
+            count = 0
+            for how, call, may_refuse, ordered in calls:
+                count += 1
+                try:
+                    r = call()
+                except Exception as e:
+                    if may_refuse and isinstance(e, TypeError):
+                        continue
+                    report(sig + how + ':raised', case, 'no exception', 'raised ' + type(e).__name__)
+                    continue
+                if how == 'reflected-operator' and sym == '-':
+                    w, g = sit - Lset, (set(r) if not isinstance(seen(r), str) else seen(r))
+                else:
+                    w, g = (want, seen(r)) if ordered else (set(want), set(r))
+                if g != w:
+                    contents = not isinstance(g, str) and set(g) == set(w)
+                    report(sig + how + (':order' if contents else ':value'), case,
+                           short(sorted(w, key=repr) if isinstance(w, set) else w),
+                           short(sorted(g, key=repr) if isinstance(g, set) else g))
+            if name == 'union':
+                for pred, w in (('issubset', Lset.issubset(it)), ('issuperset', Lset.issuperset(it)),
+                                ('isdisjoint', Lset.isdisjoint(it))):
+                    count += 1
+                    try:
+                        g = getattr(s, pred)(o)
+                    except Exception as e:
+                        g = 'raised ' + type(e).__name__
+                    if g != w:
+                        report('C11|directed:bulk:%s|value' % pred, case, w, g)
+            if seen(s) != L or check_internals(s, L):
+                report(sig + 'changed-self', case, short(L), short(seen(s)))
+            return count
+    except Hang:
+        report(sig + 'hang', case, 'terminates', 'CPU budget exceeded')
+    except Exception as e:
+        report(sig + 'raised', case, 'no exception', 'raised %s' % type(e).__name__)
+    return 1
+
+
+def bulk_cases(n, tier):
+    """Cases for one size, simplest first"""
+    out = []
+    forms = [('inplace', f) for f in BULK_INPLACE] + [('inplace', f, 2) for f in BULK_INPLACE2]
+    forms += [('pure', f) for f in BULK_PURE]
+    for holes in (False, True):
+        for keep, geom in bulk_variants(n):
+            for otype in CONCRETE:
+                for form in forms:
+                    if form[0] == 'pure' and not holes and tier == 'quick':
+                        continue            # readers on a set without tombstones: thorough only
+                    out.append({'directed': 'bulk', 'n': n, 'holes': holes, 'keep': keep, 'geometry': geom,
+                                'type': otype, 'form': list(form)})
+    return out
+
+
+def bulk(ctx):
+    """Supplement, NOT exhaustive: every in-place set operation (named and operator form, one operand; the named ones
+    that take several also with two) and every non-mutating form (named, operator, reflected operator) and predicate
+    on sets of bulk_sizes() items, with and without tombstones, for operands of every type sharing none / a few /
+    just under half / half / most / all of self's items (prefix, suffix, scattered) and holding items of their own.
+    After an in-place form the object it was applied to, the object handed back, the internal structures, reads and
+    a following add + remove are compared with the list model."""
+    sizes = bulk_sizes(ctx.tier)
+
+    def one(n):
+        rep, ev, per_sig = [], 0, {}
+
+        def report(sig, case, exp, obs):
+            per_sig[sig] = per_sig.get(sig, 0) + 1
+            if per_sig[sig] <= 2:              # a broken form fails for most operands: two cases per size are enough
+                rep.append((sig, case, exp, obs))
+
+        for case in bulk_cases(n, ctx.tier):
+            ev += bulk_case(case, report)
+        return n, ev, rep
+
+    total = 0
+    for n, ev, rep in sorted(core.pmap(one, sizes), key=lambda r: r[0]):
+        total += ev
+        for sig, case, exp, obs in rep:
+            ctx.violation(sig, core.jsonable(case), core.jsonable(exp), core.jsonable(obs))
+    ctx.coverage['bulk_non_exhaustive'] = {
+        'sizes': sizes, 'evaluations': total, 'keep': list(BULK_KEEPS), 'geometries': list(BULK_GEOMETRIES),
+        'operand_types': list(CONCRETE), 'inplace_forms': list(BULK_INPLACE),
+        'inplace_forms_two_operands': list(BULK_INPLACE2), 'pure_forms': list(BULK_PURE),
+        'with_tombstones': [False, True]}
+    return total
+
+
 def state_cap(cfg, tier):
     """Safety cap (several times the number of states of a correct implementation): a defect that stops tombstones
     from being collected makes the reachable space explode; the cap keeps the run bounded.  Hitting it is reported
@@ -1046,6 +1336,7 @@ def run(ctx):
         'runs once in every distinct state, followed by the independence probe (6 ways of deriving a second IndexedSet '
         'from the state x every single removal and one add, on either object)'))
     cov['directed_ops_non_exhaustive'] = directed(ctx)
+    cov['bulk_evaluations_non_exhaustive'] = bulk(ctx)
     cov['exhaustive'] = all(r.fixpoint for _, r in parts)
     cov['exhaustive_below_depth_bound'] = True
     cov['read_battery_visits'] = visits
@@ -1065,9 +1356,11 @@ def run(ctx):
                         's[i] and pop(i) only for indexes valid for a list of the same length',
                         'remove(x) of an absent item: KeyError, ValueError or no exception accepted; state must be '
                         'unchanged',
-                        'return values of mutators other than pop are not compared; `s op= x` may rebind the name',
-                        'operator forms only with operands built-in sets accept (set, frozenset) and IndexedSet; '
-                        'reflected forms compared as sets',
+                        'return values of mutators other than pop are not compared; `s op= x` may hand back '
+                        'another object, but the object it was applied to must hold the result as well (in-place)',
+                        'operator forms with a list / tuple operand (built-in sets raise TypeError): TypeError '
+                        'accepted, a result must be the right one; reflected | & ^ are ordered by first appearance '
+                        'in the IndexedSet (self) and then in the left operand, reflected - compared as a set',
                         'negative slice steps are outside the statement']
 
 
@@ -1077,6 +1370,14 @@ def replay(ctx, data):
     factor = cfg.get('compaction_factor')
     if cfg.get('native_factor') == factor:
         factor = native_factor()
+    if case.get('directed') == 'bulk':
+        msgs = []
+        case = dict(case, form=tup(case['form']))
+        try:
+            bulk_case(case, lambda sig, c, exp, obs: msgs.append('%s %r expected=%r observed=%r' % (sig, c, exp, obs)))
+        finally:
+            SU()._COMPACTION_FACTOR = native_factor()
+        return msgs
     if 'directed' in case:
         msgs = []
         directed_one(case.get('pattern', 'stride10'), case['order'], case['how'],
